@@ -164,6 +164,10 @@ class Intervals:
                 return self.ev(a0, env)
             if name in ("zeros", "zeros_like"):
                 return (0.0, 0.0)
+            # a private helper of the same module: its return bounds with the argument bounds (depth-limited)
+            inl = self.inline_call(n, env)
+            if inl is not None:
+                return inl
             if name in ("ones", "ones_like"):
                 return (1.0, 1.0)
             return TOP
@@ -174,6 +178,52 @@ class Intervals:
                 out = v if out is None else _join(out, v)
             return out
         return TOP
+
+    def inline_call(self, call, env, _depth=[0]):
+        func = self.func
+        mod = getattr(func, "module", None)
+        if mod is None or _depth[0] >= 2:
+            return None
+        g = None
+        if isinstance(call.func, ast.Name):
+            r = mod.resolve_name(call.func.id)
+            if r is not None and hasattr(r, "node") and isinstance(r.node, ast.FunctionDef) and getattr(r, "module", None) is mod:
+                g = r
+                params = [a.arg for a in g.node.args.args]
+        elif isinstance(call.func, ast.Attribute) and isinstance(call.func.value, ast.Name) and call.func.value.id in ("self", "cls") and getattr(func, "cls", None) is not None:
+            g = func.cls.methods.get(call.func.attr)
+            params = [a.arg for a in g.node.args.args][(0 if (g and g.is_static) else 1):] if g else []
+        if g is None or g is func:
+            return None
+        sub = Intervals(g)
+        env2 = {}
+        for p, a in zip(params, call.args):
+            env2[p] = self.ev(a, env)
+        for k in call.keywords:
+            if k.arg in params:
+                env2[k.arg] = self.ev(k.value, env)
+        rets = []
+        orig = sub.stmt
+
+        def stmt(s, e):
+            if isinstance(s, ast.Return) and s.value is not None:
+                rets.append(sub.ev(s.value, e))
+            return orig(s, e)
+        sub.stmt = stmt
+        _depth[0] += 1
+        try:
+            sub.block(g.node.body, env2)
+        except Exception:
+            rets = []
+        finally:
+            _depth[0] -= 1
+        self.sites.extend(sub.sites)       # restricted calls inside the helper are judged with the bounds of this call
+        if not rets:
+            return None
+        out = rets[0]
+        for r_ in rets[1:]:
+            out = _join(out, r_)
+        return out
 
     # ---- domain sites
     def scan(self, n, env):
